@@ -1,5 +1,7 @@
 import json
 props = {
+ "C12": ("H-STORE", "seeded search over create/savepoint/ack sequences (duplicates, wrong ids, foreign senders) interleaved with the asynchronous publication goroutines and store restarts; oracle: reference checkpoint state machine + independent decoding of every published snapshot", "5.C12"),
+ "C13": ("H-STORE", "seeded search over chains of completed checkpoints (ids on base64 alphabet boundaries) with a crash after any storage operation and overlapping asynchronous write/remove/notify steps; oracle: restart resumes from the highest id decodable in storage, newest snapshot never removed, retention notifications monotone", "5.C13"),
  "C10": ("H-TIMER", "seeded search over timer registration / watermark-advance / checkpoint+restore histories with cache sizes below the timer set, interleaved with the DB background tasks and crash points; oracle: reference set of pending timers (exactly-once, non-decreasing order)", "5.C10"),
  "C20": ("H-BATCH", "seeded search over interleavings of adder, size flush, time-out flusher, asynchronous fetches, consumer and clock advances; oracle: concatenation of batches / fetcher output equals the input sequence, stale tokens flush nothing", "5.C20"),
  "C07": ("H-DKV", "seeded search over foreground-operation histories x flush/compaction interleavings; sequential-map oracle on every Get/ScanPrefix", "5.C07"),
